@@ -109,4 +109,6 @@ DocModel ==
     IN /\ Emit => PrintT("@@" \o ToJson([focus |-> focus, ix |-> ix, abs |-> cd]) \o "@@")
        /\ D!NoDupKeys(doc)
        /\ \A i \in DOMAIN as : ~D!IsDefaultArg(as[i]) => D!ReaderKind(D!ArgDoc(as[i])) = D!WriterKind(as[i])
+       \* design-level round trip: the reader applied to the writer's document gives the data back
+       /\ D!FromDoc(doc) = cd
 =============================================================================
